@@ -445,34 +445,58 @@ class SelectBatch(Helper):
         return c["k"] > 1 and exp[2] != 0
 
 
+KEYS = {
+    # name: (source of the key function for width w, key on the raw unsigned value)
+    1: (lambda w: f"lambda x: x[{w - 1}:1].unsigned", lambda v, w: v >> 1),  # ignores the lsb (ties)
+    2: (lambda w: f"lambda x: x[{w - 2}:0].unsigned", lambda v, w: v & H.mask(w - 1)),  # low bits only
+    3: (lambda w: "lambda x: ~x", lambda v, w: (~v) & H.mask(w)),  # reversed order
+    4: (lambda w: "lambda x: x.signed", lambda v, w: H.to_signed(v, w)),  # signed view of an Unsigned
+}
+
+
 class MinMax(Helper):
     def __init__(self, name):
         self.name = name
         self.is_max = name.startswith("max")
         self.kind = name.split("_")[1] if "_" in name else "value"
         forms = ["list", "tuple", "args"] if self.kind == "value" else ["list", "tuple"]
-        self.params = {"n": list(range(1, 10)), "t": ["u", "s"], "w": [2, 3], "form": forms, "key": [0, 1]}
+        # key: 0 none | 1..4 see KEYS (orderings that differ from the elements' own);  cmp: 0 default | 2 reversed
+        self.params = {"n": list(range(1, 10)), "t": ["u", "s"], "w": [2, 3], "form": forms, "key": [0, 1, 2, 3, 4],
+                       "cmp": [0, 2]}
 
     def valid(self, c):
         if c["form"] == "args" and c["n"] < 2:
             return False  # a single positional argument is documented to be the iterable
+        if c["cmp"] and c["form"] == "tuple":
+            return False  # (keeps the table small)
         return not (c["key"] and c["t"] == "s")
 
     def args(self, c):
         return [(c["t"], c["w"])] * c["n"]
 
+    def _smaller(self, c):
+        lt = (lambda a, b: a < b)
+        gt = (lambda a, b: a > b)
+        default = gt if self.is_max else lt
+        if not c["cmp"]:
+            return default
+        return lt if self.is_max else gt
+
     def expr(self, c):
         n = c["n"]
         items = ", ".join(f"a[{i}]" for i in range(n))
         arg = {"list": f"[{items}]", "tuple": f"({items},)", "args": items}[c["form"]]
-        key = f", key=lambda x: x[{c['w'] - 1}:1].unsigned" if c["key"] else ""
-        return f"std.{self.name}({arg}{key})"
+        key = f", key={KEYS[c['key']][0](c['w'])}" if c["key"] else ""
+        cmp = ""
+        if c["cmp"]:
+            cmp = ", cmp=lambda a, b: a " + ("<" if self.is_max else ">") + " b"
+        return f"std.{self.name}({arg}{key}{cmp})"
 
     def ref(self, c, v):
         w, t = c["w"], c["t"]
         nums = [_num(x, w, t) for x in v]
-        keys = [x >> 1 for x in v] if c["key"] else nums
-        idx = H.max_index(keys) if self.is_max else H.min_index(keys)
+        keys = [KEYS[c["key"]][1](x, w) for x in v] if c["key"] else nums
+        idx = H.first_extreme(keys, self._smaller(c))
         if self.kind == "value":
             return ("num", nums[idx])
         if self.kind == "index":
@@ -480,7 +504,7 @@ class MinMax(Helper):
         return ("seq", [("num", idx), ("num", nums[idx])])
 
     def variant(self, c):
-        return f"{c['form']},key={c['key']},{c['t']}"
+        return f"{c['form']},key={c['key']},cmp={c['cmp']},{c['t']}"
 
     def num_kinds(self, c, n):
         return {"value": [c["t"]], "index": ["u"], "element": ["u", c["t"]]}[self.kind]
